@@ -56,6 +56,24 @@ def run(project: Project, rep, tier: str):
         "triangle inequality, stability bound.")
     rep.assume("sigma > 0; exact arithmetic for HT-SHIFT/HT-SWAP; diagrams are (n,2) arrays")
     sigma = sym.Sym("sigma")
+    fi_hs = project.function(HEAT)
+    # ---- HT-STATE: the distance is a function of (F, G, sigma) alone — no module-level state is read back between calls
+    from .common import own_analysis
+    oa = own_analysis(project)
+    s_h = oa.summary(HEAT)
+    leaks = [ev for ev in s_h.events if (ev.kind == "globalstore") or (ev.kind == "write" and not ev.origin.is_arg
+                                                                       and str(ev.origin).startswith(("global:", "default:")))]
+    if leaks:
+        ev = leaks[0]
+        owner = project.functions.get(ev.func) or fi_hs
+        rep.refuted("HT-STATE", owner, ev.node,
+                    f"heat() keeps results in module-level state ({ev.origin}, {ev.how}): what a call returns depends on "
+                    f"earlier calls (e.g. a memo keyed by the diagram alone serves k(F,F) computed for another sigma), so the "
+                    f"value is no longer sqrt(k(F,F)+k(G,G)-2k(F,G)) at the requested sigma",
+                    construct=f"{HEAT}: module-level state {ev.origin}")
+    else:
+        rep.discharged("HT-STATE", fi_hs, fi_hs.node, "no module-level state is written on any path: the distance depends on "
+                                                    "its arguments only")
     # ---- kernel
     fi_k, I_k, r_k = _run(project, KER, ("F", "G"))
     rep.analysed(fi_k)
@@ -162,7 +180,7 @@ def run(project: Project, rep, tier: str):
                         "NaN",
                         construct=f"{HEAT}: unclamped sqrt",
                         failing_input="F = 6 random points, G = a permutation of F: NaN in 428 of 2000 trials")
-    for r, n in (("HT-KER", 2), ("HT-DIST", 1), ("HT-SHIFT", 1), ("HT-SWAP", 1), ("HT-UNITS", 1), ("HT-REAL", 1)):
+    for r, n in (("HT-KER", 2), ("HT-DIST", 1), ("HT-SHIFT", 1), ("HT-SWAP", 1), ("HT-UNITS", 1), ("HT-REAL", 1), ("HT-STATE", 1)):
         rep.floor(r, n)
     for t in ("numpy.exp", "numpy.sum", "numpy.sqrt", "numpy.array", "numpy.maximum"):
         rep.trust(t)
